@@ -91,6 +91,15 @@ func (a *Assoc) FeedOnceErr(err error) {
 
 func (a *Assoc) FeedEOF() { a.FeedErr(io.EOF) }
 
+// FeedWithErr queues a chunk whose last bytes are handed over together with err (a reader
+// may return n > 0 and an error from one call); every later read returns err.
+func (a *Assoc) FeedWithErr(stream uint16, data []byte, err error) {
+	a.mu.Lock()
+	a.in = append(a.in, chunk{stream: stream, data: append([]byte(nil), data...), err: err})
+	a.mu.Unlock()
+	a.cond.Broadcast()
+}
+
 func (a *Assoc) FeedErr(err error) {
 	a.mu.Lock()
 	a.inErr = err
@@ -108,7 +117,7 @@ func (a *Assoc) SCTPRead(b []byte) (int, *sctp.SndRcvInfo, error) {
 	if a.closed {
 		return 0, nil, ErrClosed
 	}
-	if len(a.in) > 0 && a.in[0].err != nil {
+	if len(a.in) > 0 && a.in[0].err != nil && len(a.in[0].data) == 0 {
 		err := a.in[0].err
 		a.in = a.in[1:]
 		return 0, nil, err
@@ -119,7 +128,12 @@ func (a *Assoc) SCTPRead(b []byte) (int, *sctp.SndRcvInfo, error) {
 		info := &sctp.SndRcvInfo{Stream: c.stream}
 		a.delivered[c.stream] += n
 		if n == len(c.data) {
+			err := c.err // FeedWithErr: the last bytes of the chunk come with the error
 			a.in = a.in[1:]
+			if err != nil {
+				a.inErr = err
+				return n, info, err
+			}
 		} else {
 			c.data = c.data[n:]
 		}
